@@ -13,9 +13,10 @@ EXPLANATION = (
     "untagged_cbor(that digest) - no field in which residue could live. C03.4: the routine recurses into each of the five child "
     "kinds exactly once with target/mode/action unchanged. C03.5: unelide's Ok exit is dominated by the passing edge of "
     "digest(self) == digest(argument) and returns the argument. Does not decide byte-level residue or ciphertext opacity."
-    " C03.6: every elide_removing_* entry point passes is_revealing = false (or delegates to a removing one), every elide_revealing_* passes true, over the caller's target.")
+    " C03.6: every elide_removing_* entry point passes is_revealing = false (or delegates to a removing one), every elide_revealing_* passes true, over the caller's target."
+    " C03.7: the mode-generic wrappers (elide_set, elide_array*, elide_target*) return, on every path, the next elide_* entry point's result over the receiver, the caller's target and the caller's mode.")
 TRUSTED = ['HashSet::contains is set membership', 'Digest::untagged_cbor is the 32-byte string']
-FLOORS = {'C03.1': 1, 'C03.2': 3, 'C03.4': 5, 'C03.5': 1, 'C03.6': 8}
+FLOORS = {'C03.1': 1, 'C03.2': 3, 'C03.4': 5, 'C03.5': 1, 'C03.6': 8, 'C03.7': 5}
 
 
 def check(ctx):
@@ -115,3 +116,22 @@ def check(ctx):
         else:
             ctx.fail('C03.6', ctx.site(b), '%s does not delegate with is_revealing = %s over the caller\'s target: %s' % (b.name, str(mode == 'revealing').lower(), why), key='C03.6|' + b.name)
     ctx.need('C03.6', n >= 8, 'elide_removing_* / elide_revealing_* entry points')
+    # ---- C03.7 the mode-generic wrappers (elide_set, elide_array[_with_action], elide_target[_with_action]) have no answer of their own:
+    # what they return is the result of the next elide_* entry point over the receiver, the caller's target and the caller's mode
+    n = 0
+    for nm in ('elide_set', 'elide_array_with_action', 'elide_array', 'elide_target_with_action', 'elide_target'):
+        b = F.method1('Envelope', nm)
+        if b is None:
+            continue
+        n += 1
+        rt = strip_sites(detry(TermBuilder(F, b).return_term()))
+        c = callee_of(rt) if rt[0] == 'call' else None
+        good = (c is not None and c.name.startswith('elide_') and len(rt[2]) >= 3 and strip_sites(rt[2][0]) == P1
+                and contains(rt[2][1], lambda y: y == ('param', 2))
+                and [strip_sites(a) for a in rt[2][2:]].count(('param', 3)) == 1
+                and not any(strip_sites(a)[0] == 'bool' for a in rt[2][2:]))
+        if good:
+            ctx.ok('C03.7', ctx.site(b), '%s returns %s(self, the caller\'s target, the caller\'s mode ..) on every path' % (nm, c.name), nontrivial=False)
+        else:
+            ctx.fail('C03.7', ctx.site(b), '%s has an answer of its own (or drops the caller\'s target / mode): returns %s' % (nm, fmt(rt)[:200]), key='C03.7|' + nm)
+    ctx.need('C03.7', n >= 5, 'mode-generic elide wrappers')
